@@ -48,7 +48,24 @@ def carry_blocks(ctx, rule: str = "UNITS.carry") -> None:
                     and nun(s.value.args[0]) == x:
                 sign = nun(s.targets[0])
         if sign is None:
-            ctx.unverified(rule, f"add_duration/{x}", "block does not take the sign of its variable", m.loc(st))
+            # no sign juggling: quotient and remainder must then come from one (floor) division
+            q_mode = r_mode = None
+            for s_ in st.body:
+                if isinstance(s_, ast.AugAssign) and nun(s_.target) == target and isinstance(s_.op, ast.Add):
+                    v = nun(s_.value)
+                    if v == f"{x} // {radix}":
+                        q_mode = "floor"
+                    elif v in (f"int({x} / {radix})", f"math.trunc({x} / {radix})"):
+                        q_mode = "trunc"
+                if (isinstance(s_, ast.AugAssign) and nun(s_.target) == x and isinstance(s_.op, ast.Mod) and core.is_const(s_.value, radix)) \
+                        or (isinstance(s_, ast.Assign) and nun(s_.targets[0]) == x and nun(s_.value) == f"{x} % {radix}"):
+                    r_mode = "floor"
+            if q_mode and r_mode:
+                ctx.ob(rule, f"add_duration/{x}/pairing", q_mode == r_mode,
+                       f"block {src}: the carry is a {q_mode} quotient but the remainder a {r_mode} remainder; for negative {x} the two "
+                       f"do not add up to the original value (one whole {target[:-1]} is lost)", m.loc(st))
+            else:
+                ctx.unverified(rule, f"add_duration/{x}", "block does not take the sign of its variable", m.loc(st))
             continue
         dm = None
         for s in st.body:
